@@ -90,7 +90,9 @@ fn gen_item(g: &mut Gen, k: usize) -> String {
     let (lo, hi) = krange(k);
     match g.rng.next() % 6 {
         0 => "*".to_string(),
-        1 => format!("*/{}", g.rng.range(1, hi - lo + 2)),
+        1 => { // steps incl. zero and out-of-type values, spelled with and without leading zeros
+               let st = match g.rng.next() % 8 { 0 => 0, 1 => *g.rng.pick(&[255i128, 256, 1000]), _ => g.rng.range(1, hi - lo + 2) };
+               match g.rng.next() % 6 { 0 => format!("*/0{}", st), 1 => format!("*/00{}", st), _ => format!("*/{}", st) } }
         2 | 3 => { let v = g.rng.range(lo, hi); gen_value(g, k, v) }
         _ => { let a = g.rng.range(lo, hi); let b = g.rng.range(a, hi); format!("{}-{}", gen_value(g, k, a), gen_value(g, k, b)) }
     }
@@ -122,7 +124,11 @@ fn mutate(g: &mut Gen, s: &str) -> String {
     cs.into_iter().collect()
 }
 
+/// numbers spelled unusually: zero steps of several digits, padded values
+pub const SPELLINGS: [&str; 12] = ["*/00 * * * *", "*/000 * * * *", "5,*/00 * * * *", "* * */00 * *", "* * * */0000 *", "* * * * */00", "00 00 01 01 00",
+    "*/05 * * * *", "007 * * * *", "*/0255 * * * *", "*/0256 * * * *", "00-059/1 * * * *"];
 pub fn gen_c16(g: &mut Gen, tier: &str) {
+    for f in SPELLINGS { g.push(true, Input::with_strs("cron_parse", vec![], vec![f.to_string()])); }
     let n = if tier == "thorough" { 60_000 } else { 3_000 };
     let fixed = ["* * * * *", "*/5 * * * *", "0 0 * * 0-7", "0 0 * * 5-7", "0 0 * * 7", "0 0 * * 07", "0 0 * * 7-7", "* * * * 1-2-3",
         "* * * * 1-2-", "* * * */+5 *", "* * * * */+2", "*/0 * * * *", "60 * * * *", "* 24 * * *", "* * 0 * *", "* * 32 * *", "* * * 13 *",
